@@ -330,6 +330,7 @@ def discharge(o, timeout_ms=20000, use_cvc5=True):
         o.backend = "z3"
         if r == z3.sat:
             o.status = "discharged"
+            o.model = s.model()  # an input that drives this path (used by the engine differential check)
         elif r == z3.unsat:
             o.status = "dead"
             o.detail = "path condition unsatisfiable once quantified facts are instantiated: dead path"
@@ -917,3 +918,118 @@ def _native_replay_one(contract, I, o, model, repo):
         info["verdict"] = f"replay-error: {type(e).__name__}: {e}"
         info["trace"] = traceback.format_exc()[-3000:]
         return "error", info
+
+
+# ------------------------------------------------------------------------------------------------
+# engine differential check (thorough tier): the interpreter, run on CONCRETE inputs, against CPython
+
+
+def _close(x, y):
+    try:
+        fx, fy = float(x), float(y)
+    except (TypeError, ValueError):
+        return x == y
+    if fx != fx and fy != fy:
+        return True
+    return abs(fx - fy) <= 1e-9 * max(abs(fx), abs(fy)) + 1e-12
+
+
+def _json_same(a, b, path="result"):
+    """None when the two encoded values agree (numbers to 1e-9 relative), else a description of the first difference."""
+    if isinstance(a, dict) and isinstance(b, dict) and "t" in a and "t" in b:
+        ta, tb = a["t"], b["t"]
+        num = ("int", "float", "bool")
+        if ta in num and tb in num:
+            return None if _close(a["v"], b["v"]) else f"{path}: {a['v']} vs {b['v']}"
+        seq_t = ("list", "tuple", "ndarray")
+        if ta in seq_t and tb in seq_t:
+            if len(a["v"]) != len(b["v"]):
+                return f"{path}: length {len(a['v'])} vs {len(b['v'])}"
+            for k, (x, y) in enumerate(zip(a["v"], b["v"])):
+                d = _json_same(x, y, f"{path}[{k}]")
+                if d:
+                    return d
+            return None
+        if ta == "ref" or tb == "ref":
+            return None
+        if ta != tb:
+            return f"{path}: kind {ta} vs {tb}"
+        if ta == "dict":
+            da = {json.dumps(k, sort_keys=True): v for k, v in a["v"]}
+            db = {json.dumps(k, sort_keys=True): v for k, v in b["v"]}
+            if set(da) != set(db):
+                return f"{path}: keys differ {sorted(set(da) ^ set(db))[:4]}"
+            for k in da:
+                d = _json_same(da[k], db[k], f"{path}[{k[:30]}]")
+                if d:
+                    return d
+            return None
+        if ta == "obj":
+            for k in set(a["attrs"]) & set(b["attrs"]):
+                d = _json_same(a["attrs"][k], b["attrs"][k], f"{path}.{k}")
+                if d:
+                    return d
+            return None
+        return None if a.get("v") == b.get("v") else f"{path}: {a.get('v')} vs {b.get('v')}"
+    return None if a == b else f"{path}: {a} vs {b}"
+
+
+def differential(contract, I, model, repo):
+    """-> (verdict, detail): 'agree' | 'differ' | 'skipped'.  The same concrete inputs are run through the
+    interpreter (exact rational arithmetic) and through CPython; outcomes, results and argument post-states must
+    agree to 1e-9 relative.  A difference is an ENGINE defect (or a float-threshold coincidence), never a finding."""
+    if contract.summaries or contract.loops or not contract.replayable:
+        return "skipped", "contract uses summaries / loop contracts or is not natively callable"
+    try:
+        ctx = Ctx(I, [])
+        I.new_path(ctx)
+        I.loop_specs, I.summaries = {}, {}
+        S = sp.Spec(ctx, I, model=model)
+        sp.TOL[0] = (Fraction(1, 10 ** 9), Fraction(0))
+        try:
+            a = contract.inputs(S)
+            contract.setup(I, S, a)
+            if getattr(contract, "summaries", None) or getattr(contract, "loops", None):
+                return "skipped", "inputs() installed summaries"
+            memo = {}
+            req = {"repo": repo, "file": contract.file, "func": contract.func,
+                   "args": [enc(x, memo) for x in a.get("args", [])],
+                   "kwargs": {k: enc(v, memo) for k, v in a.get("kwargs", {}).items()},
+                   "class_state": [[f, c, at, enc(v, memo)] for (f, c, at, v) in list(contract.class_state(S, a)) + _class_objects(I)],
+                   "np_floats": bool(contract.np_floats)}
+            if "calls" in a:
+                req["calls"] = [{"file": c.get("file", contract.file), "func": c["func"],
+                                 "args": [enc(x, memo) for x in c.get("args", [])],
+                                 "kwargs": {k: enc(v, memo) for k, v in c.get("kwargs", {}).items()}} for c in a["calls"]]
+            p = subprocess.run([VENV_PY, os.path.join(HERE, "native_runner.py")], input=json.dumps(req), capture_output=True, text=True,
+                               cwd=repo, timeout=300)
+            if p.returncode != 0:
+                return "skipped", "native runner error: " + p.stderr[-300:]
+            resp = json.loads(p.stdout.splitlines()[-1])
+            ctx.np_floats = bool(contract.np_floats)
+            ops.NP_FLOATS[0] = ctx.np_floats
+            try:
+                res = contract.call(I, S, a)
+                mine = {"outcome": "return", "result": enc(res, {})}
+            except PyExc as e:
+                mine = {"outcome": "raise", "exc": e.exc.cls_name}
+            except ops.PyRaise as pr:
+                mine = {"outcome": "raise", "exc": pr.cls_name}
+            if mine["outcome"] != resp["outcome"]:
+                return "differ", f"outcome {mine['outcome']}:{mine.get('exc', '')} vs native {resp['outcome']}:{resp.get('exc', '')}"
+            if mine["outcome"] == "raise":
+                return ("agree", "") if mine["exc"] == resp.get("exc") else ("differ", f"exception {mine['exc']} vs native {resp.get('exc')}")
+            d = _json_same(mine["result"], resp["result"])
+            if d is None and "calls" not in a:
+                post = [enc(x, {}) for x in a.get("args", [])]
+                for k, (x, y) in enumerate(zip(post, resp.get("args", []))):
+                    d = d or _json_same(x, y, f"arg{k}")
+            return ("agree", "") if d is None else ("differ", d)
+        finally:
+            sp.TOL[0] = None
+    except sp.ReplayInvalid as e:
+        return "skipped", f"inputs not representable: {e}"
+    except (Unsupported, EngineError) as e:
+        return "skipped", f"{type(e).__name__}: {e}"
+    except Exception as e:
+        return "skipped", f"{type(e).__name__}: {e}"
